@@ -116,7 +116,7 @@ func (e *env) secExact() {
 	zcs := []string{"0", "1", "r-1", "tau", "tau+1", "tau-1", "random"}
 	nRandom := c.Pick(60, 1200)
 	nAlt := c.Pick(7, len(alterations)) // alterations per special base in quick; all of them in thorough
-	for round, cls := range []string{"random", "alpha=-1", "r-1", "1"} {
+	for round, cls := range []string{"random", "alpha=-1", "r-1", "1", "0"} {
 		if round > 0 && !c.Thorough() && cls != "alpha=-1" {
 			continue
 		}
@@ -445,6 +445,23 @@ func (e *env) secBatch() {
 				}
 			}
 		}
+		// documented errors of the prover: digest count, empty / oversized polynomial
+		{
+			p1, p2 := in.NewPoly(e.mkPoly(rng, 2, "dense")), in.NewPoly(e.mkPoly(rng, size+1, "dense"))
+			d := s.digests([]*big.Int{one})
+			var err error
+			if !c.Guard(N+"/BatchOpenSinglePoint/panic/count-mismatch", func() string { return "2 polynomials, 1 digest" }, func() {
+				_, err = in.BatchOpenSinglePoint([]any{p1, p1}, d, one, newHash(false), s.pk)
+			}) {
+				c.Check("BatchOpenSinglePoint", N+"/BatchOpenSinglePoint/missing-error/count-mismatch", err != nil, func() string { return "2 polynomials with 1 digest accepted" })
+			}
+			if !c.Guard(N+"/BatchOpenSinglePoint/panic/out-of-domain", func() string { return "len(p) = size+1" }, func() {
+				_, err = in.BatchOpenSinglePoint([]any{p1, p2}, s.digests([]*big.Int{one, one}), one, newHash(false), s.pk)
+			}) {
+				c.Check("BatchOpenSinglePoint", N+"/BatchOpenSinglePoint/missing-error/out-of-domain", err != nil, func() string { return "a polynomial longer than the SRS accepted" })
+			}
+			c.Class(N + "/BatchOpenSinglePoint/documented-errors")
+		}
 		// ---- arbitrary claims ----
 		nb := c.Pick(6, 60)
 		for _, k := range ks {
@@ -634,6 +651,14 @@ func (e *env) secMulti() {
 					a = cp()
 					a[0].v, a[n-1].v = f.add(a[0].v, d), f.sub(a[n-1].v, d)
 					s.multiVerify(s.vk, "altered/cancelling-values", a, false, false, false)
+					if n >= 3 { // the same between two claims that both carry a drawn weight
+						a = cp()
+						a[n-2].c, a[n-1].c = f.add(a[n-2].c, d), f.sub(a[n-1].c, d)
+						s.multiVerify(s.vk, "altered/cancelling-commitments-late", a, false, false, false)
+						a = cp()
+						a[1].v, a[n-1].v = f.add(a[1].v, d), f.sub(a[n-1].v, d)
+						s.multiVerify(s.vk, "altered/cancelling-values-late", a, false, false, false)
+					}
 					a = cp()
 					a[0].h, a[1].h = a[1].h, a[0].h
 					s.multiVerify(s.vk, "altered/quotients-swapped", a, false, false, false)
